@@ -510,6 +510,26 @@ fn ctor(s: &str) -> v2::Builder {
     }
 }
 
+/// the receive loop over pipelined headers (C04_pipeline): at most 64 frames
+fn pipe_loop(buf: &[u8]) -> String {
+    let mut off = 0usize;
+    let mut frames: Vec<String> = Vec::new();
+    while frames.len() < 64 {
+        match HeaderResult::parse(&buf[off..]) {
+            HeaderResult::V1(Ok(h)) => {
+                frames.push(format!("1:{}", h.header.len()));
+                off += h.header.len();
+            }
+            HeaderResult::V2(Ok(h)) => {
+                frames.push(format!("2:{}", h.len()));
+                off += h.len();
+            }
+            _ => break,
+        }
+    }
+    format!("P={} R={}", if frames.is_empty() { "-".to_string() } else { frames.join(",") }, buf.len() - off)
+}
+
 fn run_build(c: &str, ops: &str) -> String {
     match build_bytes(c, ops) {
         Ok(v) => format!("OK {}", hexs(&v)),
@@ -1078,23 +1098,63 @@ fn run_case(line: &str) -> String {
         "pipe" => {
             // a receiver of pipelined headers: parse, remove exactly the reported header bytes, repeat (at most 64 frames)
             let x = Placed::new(&bytes_expr(f.next().unwrap()), salt);
-            let buf = x.as_slice();
-            let mut off = 0usize;
+            pipe_loop(x.as_slice())
+        }
+        "readpipe" => {
+            // a streaming receiver of pipelined headers: the input arrives in reads cut at the given offsets; after
+            // every read the receiver removes as many complete headers as its buffer holds (C05_stream_pipeline)
+            let data = bytes_expr(f.next().unwrap());
+            let cuts_s = f.next().unwrap();
+            let mut cuts: Vec<usize> = if cuts_s == "-" { Vec::new() } else { cuts_s.split(',').map(|c| c.parse().unwrap()).collect() };
+            cuts.push(data.len());
+            let mut buf: Vec<u8> = Vec::new();
             let mut frames: Vec<String> = Vec::new();
-            while frames.len() < 64 {
-                match HeaderResult::parse(&buf[off..]) {
-                    HeaderResult::V1(Ok(h)) => {
-                        frames.push(format!("1:{}", h.header.len()));
-                        off += h.header.len();
+            let mut prev = 0usize;
+            for c in cuts {
+                buf.extend_from_slice(&data[prev..c]);
+                prev = c;
+                loop {
+                    let step = match HeaderResult::parse(buf.as_slice()) {
+                        HeaderResult::V1(Ok(h)) => Some((1, h.header.len())),
+                        HeaderResult::V2(Ok(h)) => Some((2, h.len())),
+                        _ => None,
+                    };
+                    match step {
+                        Some((k, n)) if n > 0 && n <= buf.len() => {
+                            frames.push(format!("{}:{}", k, n));
+                            buf.drain(..n);
+                        }
+                        Some((k, n)) => return format!("BADLEN {}:{}", k, n),
+                        None => break,
                     }
-                    HeaderResult::V2(Ok(h)) => {
-                        frames.push(format!("2:{}", h.len()));
-                        off += h.len();
-                    }
-                    _ => break,
                 }
             }
-            format!("P={} R={}", if frames.is_empty() { "-".to_string() } else { frames.join(",") }, buf.len() - off)
+            format!("P={} R={}", if frames.is_empty() { "-".to_string() } else { frames.join(",") }, buf.len())
+        }
+        "sendpipe" => {
+            // sender to receiver: every frame is produced by the crate's own encoders (Display for v1 addresses, the
+            // v2 Builder), the frames are concatenated with a remainder, and the receive loop reads them back
+            let specs = f.next().unwrap();
+            let rest = bytes_expr(f.next().unwrap());
+            let mut buf: Vec<u8> = Vec::new();
+            for spec in specs.split('~') {
+                let mut p = spec.splitn(3, '@');
+                match p.next().unwrap() {
+                    "1" => buf.extend_from_slice(addr1(&mut p.next().unwrap().split(',')).to_string().as_bytes()),
+                    "2" => {
+                        let c = p.next().unwrap();
+                        let ops = p.next().unwrap();
+                        match build_bytes(c, ops) {
+                            Ok(v) => buf.extend_from_slice(&v),
+                            Err(e) => return format!("BUILD {}", e),
+                        }
+                    }
+                    k => panic!("bad frame kind {}", k),
+                }
+            }
+            buf.extend_from_slice(&rest);
+            let x = Placed::new(&buf, salt);
+            format!("N={} {}", buf.len(), pipe_loop(x.as_slice()))
         }
         "tlv" => {
             let x = Placed::new(&bytes_expr(f.next().unwrap()), salt);
